@@ -59,6 +59,14 @@ CHECKS = {
               "error - and requires that whenever the chain succeeds the merged text is accepted and yields an equal Go value."),
         note="Sampled; Go value equality is a projection fact; raw values and []byte are outside the merge-capable universe.",
         design_ref="5 (C14)"),
+    "C15": dict(
+        technique="TLA+ declarative field-resolution rules checked by TLC against a transcription of the implementation's sort-and-scan algorithm on every type graph; replay on reflect-built struct types (member names/order/presence, receiving field per probe name)",
+        text=("Fields.tla states the documented rules (breadth-first candidates, shallowest wins, a single explicitly named field breaks a tie, otherwise dropped; depth-first marshal order; exact then "
+              "case-insensitive matching ignoring '_' and '-' with ambiguity reported; unknown names ignored or rejected; omitzero/omitempty/string per field). TLC proves rules == algorithm and "
+              "name uniqueness on each type graph and emits, per type, the member order with omission flags per value class and the field (or unknown/ambiguous) for 17 probe names under both "
+              "matching modes. The harness builds each type with reflect and compares Marshal output for 8 value classes and the field set by Unmarshal for every probe x option combination."),
+        note="Sampled type graphs from a collision-forcing grammar plus hand-written corners and 70/130-field structs; ASCII names; `embed` tag option instead of Go embedding.",
+        design_ref="5 (C15), 4.6"),
     "C16": dict(
         technique="TLC-checked invariant 'model positions == independent parse'; replay of TLC-enumerated programs comparing offset/depth/index/pointer after every call; relational error-position predicates validated by TLC on logged errors; RFC 6901 pointer laws model-checked and replayed",
         text=("After every decoder call the harness compares InputOffset, StackDepth, StackIndex and (scheduled) StackPointer with TLC's prediction; TLC proves on the model that "
